@@ -87,6 +87,28 @@ CHECKS = {
    text="Every exported seqnum function is executed on boundary lattices around every power of two from wrap-adjacent base points, a strided sweep (thorough: all 2^32 distances per base) and PRNG tuples, and each result is compared with the serial-number definition evaluated in 64-bit integers. Exploration, not proof: the operand space of the 3- and 4-argument functions is sampled.",
    note="Trusted: the 64-bit reference definitions in h/c14 (written from the statement). Antipodal distance, empty windows and spans >= 2^31 are recorded, not judged."),
 }
+# coverage added for the fifth round of seeded changes (DESIGN §6)
+EXTRA = {
+ "C01": "The wire can also make the sending link refuse a packet (WritePacket error); scripts contain a path-MTU decrease with data outstanding and a segment spanning the whole receive window.",
+ "C02": "Further base exchanges: receive buffer enlarged at a closed window; the window's right edge crossing 2^32 / 2^31 with its left edge below (steered ISS); link refusal of packets in the random scenarios.",
+ "C03": "One wrong ACK in three arrives without the negotiated timestamp option.",
+ "C04": "Bytes transmitted for the first time must stay inside the edge of the peer's latest segment (a peer may take window back); a window that stays closed although everything was read is a violation; bursts of in-order segments; ISS up to 700 000 below the wraps.",
+ "C05": "ICMP fragmentation-needed reports that name the MTU already in use arrive after the first flight: nothing may be sent because of them.",
+ "C06": "On MTU 65535 links: MSS 65535 and writes larger than one segment while SACK blocks are attached (packets at the 16-bit total-length limit).",
+ "C07": "Bare ACKs to the listener with arbitrary acknowledgement numbers (forged SYN cookies); half of each batch arrives 31 virtual seconds after the other half.",
+ "C08": "End-to-end rounds with 1-60 bytes of link padding behind every fragment.",
+ "C09": "Multicast memberships (joined before/after bind, left, socket closed unbound) with group addresses among the probed destinations; the registration table raced directly (at most one holder of an endpoint id).",
+ "C10": "Binds that fail after the port was reserved (address not local, plain or v4-mapped; refusing commit callback) join the everything-released sweep.",
+ "C12": "Waits on neighbours whose host part looks special (x.y.z.255, .0) and with the first resolution request refused by the link.",
+ "C13": "Requests with 1-200 bytes of link padding; every third child on a checksum-offload link.",
+ "C14": "TCP half (h/script): a segment that starts behind the receive window's left edge and ends beyond its right edge must be accepted.",
+ "C15": "Pseudo-header sums for one address pair under several protocols in a row; TCP checksum helpers and pseudo-header sum called from eight goroutines at once, each result compared with the independent computation.",
+ "C16": "The reference keeps the chunk list: RemoveFirst removes exactly one chunk, also an empty one.",
+ "C18": "The wait for the last waiters among many mutexes is bounded and decides a lost wake-up from state.",
+ "C20": "A route is registered while a WebSocket session is open; request bodies begin with / contain CR and LF.",
+}
+for _k, _v in EXTRA.items():
+    CHECKS[_k]["text"] += " " + _v
 NOT_BUILT = "not claimed"
 def hooks_commits():
     out = subprocess.run(["git","-C","/repo","log","--format=%H %s"],capture_output=True,text=True).stdout
